@@ -273,3 +273,137 @@ def parse_client_stream(b, strict_flags=True):
         p['raw'] = raw
         packets.append(p)
     return packets, tail, problems
+
+
+# ---------------------------------------------------------------- server -> client packets (for C08's "valid is accepted")
+class Unsure(Exception):
+    """the packet is in a zone this validator does not judge (e.g. a reason code outside the table of its packet type)"""
+
+
+SERVER_NAMES = {2: 'CONNACK', 3: 'PUBLISH', 4: 'PUBACK', 5: 'PUBREC', 6: 'PUBREL', 7: 'PUBCOMP', 9: 'SUBACK', 11: 'UNSUBACK',
+                13: 'PINGRESP', 14: 'DISCONNECT'}
+ACK_REASONS = {
+    'PUBACK': {0x00, 0x10, 0x80, 0x83, 0x87, 0x90, 0x91, 0x97, 0x99},
+    'PUBREC': {0x00, 0x10, 0x80, 0x83, 0x87, 0x90, 0x91, 0x97, 0x99},
+    'PUBREL': {0x00, 0x92}, 'PUBCOMP': {0x00, 0x92},
+    'SUBACK': {0x00, 0x01, 0x02, 0x80, 0x83, 0x87, 0x8F, 0x91, 0x97, 0x9E, 0xA1, 0xA2},
+    'UNSUBACK': {0x00, 0x11, 0x80, 0x83, 0x87, 0x8F, 0x91},
+    'DISCONNECT': {0x00, 0x80, 0x81, 0x82, 0x83, 0x87, 0x89, 0x8B, 0x8D, 0x8E, 0x8F, 0x90, 0x93, 0x94, 0x95, 0x96, 0x97, 0x98,
+                   0x99, 0x9A, 0x9B, 0x9C, 0x9D, 0x9E, 0x9F, 0xA0, 0xA1, 0xA2},
+    'CONNACK': {0x00, 0x80, 0x81, 0x82, 0x83, 0x84, 0x85, 0x86, 0x87, 0x88, 0x89, 0x8A, 0x8C, 0x90, 0x95, 0x97, 0x99, 0x9A,
+                0x9B, 0x9C, 0x9D, 0x9F},
+}
+
+
+def parse_server_packet(first, body):
+    """one complete broker packet -> dict if it is certainly valid MQTT 5 for a client that requested neither enhanced
+    authentication nor topic aliases; raises Malformed if it is certainly not; Unsure otherwise"""
+    typ, flags = first >> 4, first & 15
+    if typ not in SERVER_NAMES:
+        raise Malformed('packet type %d is not sent by a broker (to this client)' % typ)
+    name = SERVER_NAMES[typ]
+    p = {'type': name, 'first': first}
+    c = Cur(body)
+    if name == 'PUBLISH':
+        qos = (flags >> 1) & 3
+        if qos == 3:
+            raise Malformed('QoS 3')
+        if qos == 0 and flags & 8:
+            raise Malformed('DUP set on QoS 0')
+        p.update(qos=qos, dup=bool(flags & 8), retain=bool(flags & 1), topic=c.utf8())
+        if b'+' in p['topic'] or b'#' in p['topic']:
+            raise Malformed('wildcard in topic name')
+        if qos:
+            p['pid'] = c.u16()
+            if p['pid'] == 0:
+                raise Malformed('packet identifier 0')
+        n = c.var()
+        blk = c.take(n)
+        out, seen, b = [], set(), Cur(blk)
+        while not b.done():
+            k = b.var()
+            if k not in PROPS or 'PUBLISH' not in PROPS[k][0:2][1]:
+                raise Malformed('property 0x%02x is not allowed in PUBLISH' % k)
+            if k == 0x23:
+                raise Malformed('Topic Alias although the client allows none')
+            sh = PROPS[k][0]
+            v = b.u8() if sh == 'b' else b.u16() if sh == '2' else b.u32() if sh == '4' else b.var() if sh == 'v' else \
+                b.utf8() if sh == 's' else b.binary() if sh == 'd' else (b.utf8(), b.utf8())
+            if k not in (0x26, 0x0B) and k in seen:
+                raise Malformed('property 0x%02x appears twice' % k)
+            seen.add(k)
+            if k == 0x01 and v > 1:
+                raise Malformed('Payload Format Indicator %d' % v)
+            if k == 0x0B and v == 0:
+                raise Malformed('Subscription Identifier 0')
+            if k == 0x08 and (b'+' in v or b'#' in v or len(v) == 0):
+                raise Malformed('Response Topic with wildcard')
+            out.append((k, v))
+        if len(p['topic']) == 0:
+            raise Malformed('empty topic without alias')
+        p['props'] = out
+        p['props_raw'] = bytes(blk)
+        p['payload'] = c.rest()
+        if dict((k, v) for k, v in out if k != 0x26).get(0x01) == 1:
+            try:
+                p['payload'].decode('utf-8')
+            except UnicodeDecodeError:
+                raise Unsure('payload format says UTF-8, payload is not')
+        return p
+    want = 2 if name == 'PUBREL' else 0
+    if flags != want:
+        raise Malformed('%s with flags %d' % (name, flags))
+
+    def props(where):
+        return properties(c, where)
+
+    if name == 'CONNACK':
+        af = c.u8()
+        if af > 1:
+            raise Malformed('reserved connect acknowledge flags')
+        p['sp'] = af
+        p['reason'] = c.u8()
+        if p['reason'] not in ACK_REASONS['CONNACK']:
+            raise Unsure('CONNACK reason 0x%02x' % p['reason'])
+        if p['reason'] != 0 and af:
+            raise Malformed('session present with a failure code')
+        p['props'] = props('CONNACK')
+        for k, v in p['props']:
+            if k in (0x24, 0x25, 0x28, 0x29, 0x2A) and v > 1:
+                raise Malformed('CONNACK property 0x%02x has value %d' % (k, v))
+            if k in (0x15, 0x16, 0x1A):
+                raise Unsure('CONNACK property 0x%02x answers a request this client never makes' % k)
+    elif name in ('PUBACK', 'PUBREC', 'PUBREL', 'PUBCOMP'):
+        p['pid'] = c.u16()
+        if p['pid'] == 0:
+            raise Malformed('packet identifier 0')
+        p['reason'] = 0
+        if not c.done():
+            p['reason'] = c.u8()
+            if p['reason'] not in ACK_REASONS[name]:
+                raise Unsure('%s reason 0x%02x' % (name, p['reason']))
+            if not c.done():
+                p['props'] = props(name)
+    elif name in ('SUBACK', 'UNSUBACK'):
+        p['pid'] = c.u16()
+        if p['pid'] == 0:
+            raise Malformed('packet identifier 0')
+        p['props'] = props(name)
+        p['codes'] = list(c.rest())
+        if not p['codes']:
+            raise Malformed('%s without reason codes' % name)
+        if any(x not in ACK_REASONS[name] for x in p['codes']):
+            raise Unsure('%s reason code' % name)
+    elif name == 'DISCONNECT':
+        p['reason'] = 0
+        if not c.done():
+            p['reason'] = c.u8()
+            if p['reason'] not in ACK_REASONS['DISCONNECT']:
+                raise Unsure('DISCONNECT reason 0x%02x' % p['reason'])
+            if not c.done():
+                p['props'] = props('DISCONNECT')
+                if any(k == 0x11 for k, _ in p['props']):
+                    raise Malformed('Session Expiry Interval in a server DISCONNECT')
+    if not c.done():
+        raise Malformed('%d bytes of trailing garbage in %s' % (len(body) - c.i, name))
+    return p
